@@ -4,6 +4,11 @@ package checks
 
 import (
 	"bytes"
+	"compress/zlib"
+	"crypto/sha1"
+	"crypto/sha256"
+	"encoding/binary"
+	"encoding/hex"
 	"fmt"
 	"os"
 	"path/filepath"
@@ -111,3 +116,98 @@ func aShort(b []byte) string {
 }
 
 func aEq(a, b []byte) bool { return bytes.Equal(a, b) }
+
+// ---- storing many raw objects in a git repository through one process
+
+// aObj is one raw object to store.
+type aObj struct {
+	Type string
+	Data []byte
+}
+
+// aRawID computes the object id with the Go standard library (sha1/sha256);
+// aStoreObjects verifies every id against git afterwards.
+func aRawID(format, typ string, data []byte) string {
+	hdr := fmt.Sprintf("%s %d\x00", typ, len(data))
+	if format == "sha256" {
+		h := sha256.New()
+		h.Write([]byte(hdr))
+		h.Write(data)
+		return hex.EncodeToString(h.Sum(nil))
+	}
+	h := sha1.New()
+	h.Write([]byte(hdr))
+	h.Write(data)
+	return hex.EncodeToString(h.Sum(nil))
+}
+
+// aStoreObjects writes objs as one version-2 pack (undeltified) and feeds it
+// to `git index-pack --stdin` in g's repository. Returns the ids (harness
+// computed); git must afterwards know every id with the right type and size,
+// otherwise the machinery is broken (engine error).
+func aStoreObjects(g *fw.Git, format string, objs []aObj) []string {
+	ids := make([]string, len(objs))
+	if len(objs) == 0 {
+		return ids
+	}
+	// de-duplicate (index-pack tolerates duplicates but there is no point)
+	seen := map[string]bool{}
+	var uniq []int
+	for i, o := range objs {
+		ids[i] = aRawID(format, o.Type, o.Data)
+		if !seen[ids[i]] {
+			seen[ids[i]] = true
+			uniq = append(uniq, i)
+		}
+	}
+	var pack bytes.Buffer
+	pack.WriteString("PACK")
+	binary.Write(&pack, binary.BigEndian, uint32(2))
+	binary.Write(&pack, binary.BigEndian, uint32(len(uniq)))
+	tcode := map[string]byte{"commit": 1, "tree": 2, "blob": 3, "tag": 4}
+	zw, _ := zlib.NewWriterLevel(&pack, zlib.BestSpeed)
+	for _, i := range uniq {
+		o := objs[i]
+		tc, ok := tcode[o.Type]
+		if !ok {
+			fw.Abort("aStoreObjects: type %q", o.Type)
+		}
+		sz := uint64(len(o.Data))
+		b := tc<<4 | byte(sz&0x0f)
+		sz >>= 4
+		for sz > 0 {
+			pack.WriteByte(b | 0x80)
+			b = byte(sz & 0x7f)
+			sz >>= 7
+		}
+		pack.WriteByte(b)
+		zw.Reset(&pack)
+		zw.Write(o.Data)
+		zw.Close()
+	}
+	if format == "sha256" {
+		s := sha256.Sum256(pack.Bytes())
+		pack.Write(s[:])
+	} else {
+		s := sha1.Sum(pack.Bytes())
+		pack.Write(s[:])
+	}
+	g.MustRunIn(pack.Bytes(), "index-pack", "--stdin")
+	// verify
+	var q []string
+	for _, i := range uniq {
+		q = append(q, ids[i])
+	}
+	r := g.MustRunIn([]byte(strings.Join(q, "\n")+"\n"), "cat-file", "--batch-check")
+	lines := strings.Split(strings.TrimRight(string(r.Out), "\n"), "\n")
+	if len(lines) != len(uniq) {
+		fw.Abort("aStoreObjects: %d answers for %d ids", len(lines), len(uniq))
+	}
+	for k, i := range uniq {
+		want := fmt.Sprintf("%s %s %d", ids[i], objs[i].Type, len(objs[i].Data))
+		if lines[k] != want {
+			fw.Abort("aStoreObjects: git says %q, expected %q", lines[k], want)
+		}
+	}
+	return ids
+}
